@@ -45,6 +45,12 @@ Reading (how the words of the property are taken; the oracle below implements ex
 * outside the quantifier (compared with the model, never judged): unknown mode / clef sign, a time signature with
   0 beats, a clef that belongs to no staff (staff=None: no importer produces one; not generated), two consecutive
   measures without a number (the code back-fills one step; every importer numbers its measures).
+* "the maps agree with the optional note-array columns derived from them": for ANY list of notes (rests) of the part
+  handed to the public note_array_from_note_list (rest_array_from_rest_list) in ANY order together with the part's
+  maps - and for note_array_from_part / rest_array_from_part with the include_* flags - every row's ks_* / ts_* /
+  is_downbeat / rel_onset_div / tot_measure_div cells are the maps evaluated at THAT row's onset_div (and what is in
+  force there by the clauses above); a map that is not handed in adds no column.  The order of the rows is not part of
+  this property (C05); the correspondence compares it up to the order inside runs of equal onset and pitch.
 * not covered: attributes of elements changed in place after a query (`note.staff = 3`): Part.number_of_staves is a
   cache that only add/remove invalidate (upstream design; a history of add/remove/switch calls is what is generated).
 """
@@ -60,7 +66,9 @@ from core import Eval
 PROPERTY = "C10"
 DRIVER = "drv_c10"
 PROPS = ["PartituraModel.Props.C10", "PartituraModel.Props.C10Part", "PartituraModel.Props.C10Timeline",
-         "PartituraModel.Props.C10Exact"]
+         "PartituraModel.Props.C10Exact", "PartituraModel.Props.C10Notes", "PartituraModel.Props.C10Source",
+         "PartituraModel.Props.C10Order", "PartituraModel.Props.C10Hist",
+         "PartituraModel.Props.C10Start"]
 TRUSTED = [
     "scipy.interpolate.interp1d(kind='previous', fill_value='extrapolate'): index = #{x_i <= q} clipped to 1..n, "
     "NaN below the first sample (modelled by lastLE; exercised at positions before the first sample)",
@@ -73,6 +81,14 @@ TRUSTED = [
     "are the rows the property builds - the independent oracle compares them with iter_all as multisets",
     "scipy.interpolate.interp1d(kind='linear') of the beat maps as modelled in Model/TimeMap.lean (property C02)",
     "NaN -> int64 conversion yields INT64_MIN on this platform (printed as `nan` on both sides)",
+    "np.argsort(note_array['pitch']) (numpy's default sort, not stable) is modelled as a stable sort; the order of rows with "
+    "equal onset and pitch is not compared.  With beat_map / quarter_map handed in, the array is sorted by the float32 "
+    "onset_beat column (C05): the rows are then compared as a set ordered by (onset_div, pitch)",
+    "a NaN measure length (position before the first bar line of a part with several measures) is INT64_MIN after "
+    ".astype(int) and the i4 column of the note array keeps its low 32 bits (0): the harness prints that cell as `nan`",
+    "harness/translate_c10.py reads defaults, pickup rounding and column layout off the live functions by running them "
+    "on probe parts (a part with one note and one rest; 3/8 at 3 divisions per quarter): that these probes are "
+    "representative is what the correspondence streams check on every generated part",
     "binary64 arithmetic: the model is exact; that the float bar length beats_per_bar * divs_per_beat is within half a "
     "division of the exact one is what pickup_start_noise_free needs (observed within 1e-9 relative by the `dpb` "
     "comparison at every generated resolution, not proved about IEEE arithmetic); "
@@ -82,19 +98,27 @@ TRUSTED = [
 ]
 PARTIAL = [
     "scalar/array/list agreement of the implementation is compared (oracle), the theorem is about the model's vec",
-    "ts/ks/clef_spec assume at most one element of a kind (and staff) per time (the Reading); for coincident "
-    "elements lookup_spec states that the value of one of the rows in force is returned",
+    "ts/ks/clef_spec assume at most one element of a kind (and staff) per time (the Reading); for coincident elements "
+    "ks/ts/clef_coincident (Props/C10Order.lean) state which one is returned (the last in iter_all order, the first of the "
+    "table before all of them); the ORACLE still accepts any of the coincident elements (the Reading)",
     "measure_spec/number_spec assume measures in time order without overlap (gaps allowed); the length component of "
     "metrical_spec assumes they tile (metrical_position_no_tiling gives the position component without that)",
-    "pickup_spec_composed gives the closed form (full bar = beats * 4/beat_type quarters at the quarter duration in force "
-    "at 0, in both beat modes) under the side condition that no key point of the beat map lies inside the first beat and "
-    "the timeline is at least one beat long; without it divs_per_beat_spec still characterises divs_per_beat as the "
-    "position one beat after position 0",
-    "histories: the Lean model is a function of the part description; that a history leaves exactly the simulated "
-    "description is checked by the oracle (fresh build) and, for the timeline itself, is property C01",
-    "agreement of the note-array columns with the maps is compared on the implementation, not proved",
-    "pickup_start_exact / pickup_maps_exact assume a part that starts simply (SimpleStart) with a bar of a whole number of "
-    "divisions; pickup_start_nearest covers the other bars up to the direction of rounding",
+    "pickup_spec_described gives the closed form (full bar = beats * 4/beat_type quarters at the quarter duration in force "
+    "at 0, in both beat modes) for a description whose first signature and quarter duration start at 0, with no later "
+    "signature / quarter-duration change inside the first beat and a timeline at least one beat long (DescribedStart: "
+    "conditions on the description only; the key-point conditions of SimpleStart are derived); without them "
+    "divs_per_beat_spec still characterises divs_per_beat as the position one beat after position 0",
+    "histories: Model/StepMapHist.lean models add / remove / re-add / beat-mode switches / set_quarter_duration on the "
+    "elements the maps read and is compared with the state of the real part after every generated history (`hist`); "
+    "rebuild_same_tables proves that a fresh build of what is on the timeline has the same tables, time points and beat "
+    "mode for EVERY history; the quarter-duration table is reproduced only up to redundant entries "
+    "(rebuild_same_description assumes it is; the counter-example is in Props/C10Hist.lean; as functions the tables are "
+    "equal: property C02); objects whose attributes are changed in place are not modelled",
+    "the note-array theorems (Props/C10Notes.lean) are about the modelled columns: object, onset_div, pitch and the eight "
+    "cells derived from the maps; the other columns (beats, quarters, duration, voice, id, spelling, grace, staff, "
+    "divs_pq) and the voice pass are property C05; rows_sorted is about the model's stable sorts (sort key onset_div)",
+    "pickup_maps_exact(_described) assume a bar of a whole number of divisions; pickup_start_nearest covers the other "
+    "bars up to the direction of rounding",
 ]
 RULE = ("three structured generators over abstract parts built through Part.add/set_quarter_duration (quick: 75 + 75 "
         "+ 300 cases): 'resolution' (divisions 96..10080, odd 5..35 and small ones; x/2 .. x/16 signatures; a pickup of an "
@@ -111,7 +135,14 @@ RULE = ("three structured generators over abstract parts built through Part.add/
         "history (queries of all maps, removal and re-adding of any element, use_musical_beat with default and custom "
         "tables, use_notated_beat, set_musical_beat_per_ts, set_quarter_duration) and are compared with a fresh build of "
         "what is left; every map is queried at every integer position of the timeline (plus 2 before and after) as "
-        "scalar, ndarray and list; distinct = distinct part description; non-trivial = the part has at least one element")
+        "scalar, ndarray and list; every case with notes also builds the note / rest arrays four ways: "
+        "note_array_from_note_list / rest_array_from_rest_list called directly with a subset of the three maps (all 8 "
+        "subsets; 30% also with beat and quarter maps) on the notes in score order / by pitch / reversed / shuffled / a "
+        "hand-picked shuffled sub-list, and note_array_from_part / rest_array_from_part with the same include_* flags; 40% "
+        "of the cases get 3-10 more notes with spellings of their own (octaves 2-6, accidentals), chords, repeated pitches "
+        "and rests at and around every signature change and bar line; the state every history leaves (time points, quarter "
+        "durations, all element tables with stored musical beats, beat mode, staves) is compared with the Lean history "
+        "model; distinct = distinct part description; non-trivial = the part has at least one element")
 LEVEL_TEXT = ("Lean 4 theorems over an executable model of the six maps as functions of the part description alone (all "
               "tables, all positions, by induction on the table; the pickup rule composed with C02's beat-map model, the "
               "table order derived from C01's timeline model for every edit history) tied to the code by a differential "
@@ -119,7 +150,14 @@ LEVEL_TEXT = ("Lean 4 theorems over an executable model of the six maps as funct
               "iter_all order) and the regenerated MUSICAL_BEATS / CLEF_TO_INT tables.  Round 3: the integer tables are exact "
               "at every resolution (pickup_start_exact, pickup_maps_exact for all quarter durations), np.round absorbs any "
               "float noise below half a division while truncation is off by one (round_absorbs_noise, "
-              "pickup_trunc_off_by_one), and the generators sample realistic divisions with exact Fraction expectations.")
+              "pickup_trunc_off_by_one), and the generators sample realistic divisions with exact Fraction expectations.  "
+              "Round 5: the note / rest arrays built from the maps are in the model (loop in list order, i4 conversion, the "
+              "two sorts, the include_* dispatch) with theorems for every list in every order (row_at_own_onset, "
+              "columns_agree_with_maps, note_*_column_in_force, list_order_irrelevant, note_array_total); coincident "
+              "elements (last in iter_all order) and edit histories (rebuild_same_tables: a fresh build of what is on the "
+              "timeline reads the same) are theorems over a Lean history model compared with the real part's state; the "
+              "pickup rule needs description-level hypotheses only (pickup_spec_described); defaults, the rounding of the "
+              "pickup rule and the column layout are regenerated from the live functions (Gen/C10Tables.lean).")
 
 INT_MIN = -(2 ** 63)
 GEN_LINE_NONE = True  # clefs without a line (repaired by fixes/C10-11)
@@ -346,6 +384,49 @@ def gen_adversarial(rng):
     return d
 
 
+NA_MAP_COLUMNS = ("ks_fifths", "ks_mode", "ts_beats", "ts_beat_type", "ts_mus_beats", "is_downbeat", "rel_onset_div",
+                  "tot_measure_div")
+STEPS = "CDEFGAB"
+STEP_PC = {"C": 0, "D": 2, "E": 4, "F": 5, "G": 7, "A": 9, "B": 11}
+NA_ORDERS = ["score", "pitch", "rev", "shuffle", "shuffle", "pick"]
+
+
+def midi_of(pit, i):
+    """MIDI pitch of note number i of a description (plain arithmetic on its spelling; a rest has none)"""
+    if pit == "rest":
+        return 0
+    st, oc, al = pit if pit else (STEPS[i % 7], 4, 0)
+    return 12 * (oc + 1) + STEP_PC[st] + (al or 0)
+
+
+def enrich_notes(rng, d):
+    """more notes (and rests) for the direct note-array calls: onsets at and around every signature change and bar
+    line, chords (equal onsets), repeated pitches, a melody whose pitch order is unrelated to its onset order"""
+    times = sorted({e[0] for k in ("ts", "ks", "ms") for e in d[k]} | {m[1] for m in d["ms"]}
+                   | {n[0] for n in d["notes"]} | {n[0] + n[1] for n in d["notes"]})
+    if len(times) < 2:
+        return
+    lo, hi = times[0], times[-1]
+    nst = max([1] + [c[1] for c in d["clefs"] if c[1]] + [n[2] for n in d["notes"] if n[2]])
+    spell = lambda: [rng.choice(STEPS), rng.randint(2, 6), rng.choice([0, 0, 0, 1, -1])]
+    pit = {}
+    for i in range(len(d["notes"])):
+        if rng.random() < 0.7:
+            pit["n%d" % i] = spell()
+    cands = [t for t in times if t < hi]
+    for _ in range(rng.randint(3, 10)):
+        r = rng.random()
+        t = rng.choice(cands) if r < 0.45 else rng.randint(lo, hi - 1)
+        if r > 0.85 and d["notes"]:
+            t = rng.choice(d["notes"])[0]  # a chord
+        t = min(max(t, lo), hi - 1)
+        i = len(d["notes"])
+        d["notes"].append([t, rng.randint(1, max(1, min(d["q0"], hi - t))), rng.choice([None, 1, rng.randint(1, nst)]),
+                           rng.choice([None, 1, 2])])
+        pit["n%d" % i] = "rest" if rng.random() < 0.2 else spell()
+    d["pit"] = pit
+
+
 KINDS = ["ts", "ks", "clefs", "ms", "notes", "words", "dirs"]
 MAPS = ("time_signature_map", "key_signature_map", "clef_map", "measure_map", "measure_number_map",
         "metrical_position_map")
@@ -437,6 +518,14 @@ def cases(rng, tier):
         # the maps of a part are also queried after switching it to musical beats (compound metres count
         # dotted beats): the measure maps must not depend on the beat mode
         restate(rng, d)
+        # the note / rest arrays are also requested directly (note_array_from_note_list with the part's maps) for a
+        # list of notes in an arbitrary order; four cases in ten get more notes with pitches of their own and rests
+        if rng.random() < 0.4:
+            enrich_notes(rng, d)
+        if d["notes"]:
+            d["na"] = {"order": rng.choice(NA_ORDERS), "seed": rng.randrange(10 ** 6),
+                       "flags": [1, 1, 1] if rng.random() < 0.6 else [rng.randint(0, 1) for _ in range(3)],
+                       "beat": rng.random() < 0.3}
         if rng.random() < 0.3:
             d["musical_mode"] = True
         if rng.random() < 0.35:
@@ -475,7 +564,14 @@ def build(desc):
     for i, n in enumerate(desc["notes"]):
         t, dur, st, vc = n[:4]
         nid = n[4] if len(n) > 4 else "n%d" % i
-        objs.append((t, t + dur, S.Note("CDEFGAB"[i % 7], 4, 0, id=nid, voice=vc, staff=st), ("notes", i)))
+        pit = (desc.get("pit") or {}).get(nid)
+        if pit == "rest":
+            o = S.Rest(id=nid, voice=vc, staff=st)
+        elif pit:
+            o = S.Note(pit[0], pit[1], pit[2], id=nid, voice=vc, staff=st)
+        else:
+            o = S.Note("CDEFGAB"[i % 7], 4, 0, id=nid, voice=vc, staff=st)
+        objs.append((t, t + dur, o, ("notes", i)))
     for i, (t, st) in enumerate(desc.get("words", [])):
         objs.append((t, None, S.Words("w", staff=st), ("words", i)))
     for i, (t, st) in enumerate(desc.get("dirs", [])):
@@ -583,7 +679,7 @@ def final_state(desc):
             setmb(op[1])
         elif op[0] == "qd":
             qd_set(table, op[1], op[2])
-    L = {"q0": table[0][1], "qd_table": table, "musical": musical}
+    L = {"q0": table[0][1], "qd_table": table, "musical": musical, "pit": dict(desc.get("pit") or {})}
     for k in KINDS:
         rows = sorted((r for r in recs[k] if r["live"]), key=lambda r: (r["e"][0], r["seq"]))
         if k == "ts":
@@ -607,7 +703,7 @@ def final_state(desc):
 def fresh_desc(L):
     """a description whose plain build is the part `L` describes"""
     d = {"gen": "fresh", "q0": L["q0"], "qd": [list(e) for e in L["qd_table"][1:]], "rev": False,
-         "musical_mode": L["musical"]}
+         "musical_mode": L["musical"], "pit": dict(L.get("pit") or {})}
     for k in KINDS:
         d[k] = [list(e) for e in L[k]]
     return d
@@ -739,6 +835,95 @@ def valid_desc(desc):
 def measures_ok(desc):
     ms = desc["ms"]
     return all(ms[i][1] <= ms[i + 1][0] for i in range(len(ms) - 1)) and all(m[0] < m[1] for m in ms)
+
+
+# ------------------------------------------------------------------ the history as the Lean model reads it
+def _tbl_tok(tbl):
+    rows = []
+    for k, v in dict(tbl).items():
+        b, bt = k.split("/")
+        rows.append((int(b), int(bt), int(v)))
+    return W.lst(lambda r: "%d %d %d" % r, rows)
+
+
+def history_ops(desc):
+    """the calls `build` makes, as requests of Model/StepMapHist.lean (same order, same guards)"""
+    ops = []
+    for t, q in desc.get("qd", []):
+        ops.append("qd %d %d" % (t, q))
+    objs = []
+    for i, e in enumerate(desc["ts"]):
+        objs.append((e[0], "ts %d %d" % (e[1], e[2]), W.opt(W.i, e[3] if len(e) > 3 else None), ("ts", i)))
+    for i, (t, f, m) in enumerate(desc["ks"]):
+        objs.append((t, "ks %d %s" % (f, W.s(m)), "-", ("ks", i)))
+    for i, (t, st, sg, ln, oc) in enumerate(desc["clefs"]):
+        objs.append((t, "clef %d %s %s %s" % (st, W.s(sg), W.opt(W.i, ln), W.opt(W.i, oc)), "-", ("clefs", i)))
+    for i, (s0, e0, num) in enumerate(desc["ms"]):
+        objs.append((s0, "ms %d %s" % (e0, W.opt(W.i, num)), "-", ("ms", i)))
+    for i, n in enumerate(desc["notes"]):
+        objs.append((n[0], "other %d %s" % (n[0] + n[1], W.opt(W.i, n[2])), "-", ("notes", i)))
+    for i, (t, st) in enumerate(desc.get("words", [])):
+        objs.append((t, "other - %s" % W.opt(W.i, st), "-", ("words", i)))
+    for i, (t, st) in enumerate(desc.get("dirs", [])):
+        objs.append((t, "other - %s" % W.opt(W.i, st), "-", ("dirs", i)))
+    ident = {key: k for k, (_, _, _, key) in enumerate(objs)}
+    order = list(objs)
+    if desc.get("rev"):
+        order.sort(key=lambda o: -o[0])
+    warm = desc.get("warm")
+    for k, (t, kind, mb, key) in enumerate(order):
+        if warm is not None and k == warm:
+            ops.append("q")
+        ops.append("new %d %d %s %s" % (ident[key], t, kind, mb))
+    if desc.get("musical_mode"):
+        ops.append("mus 0")
+    live = set(ident)
+    for op in desc.get("hist", []):
+        if op[0] == "q":
+            ops.append("q")
+        elif op[0] == "rm":
+            key = (op[1], op[2])
+            if key in live:
+                ops.append("remove %d" % ident[key])
+                live.discard(key)
+        elif op[0] == "add":
+            key = (op[1], op[2])
+            if key in ident and key not in live:
+                ops.append("readd %d" % ident[key])
+                live.add(key)
+        elif op[0] == "mus":
+            ops.append("mus " + _tbl_tok(op[1]))
+        elif op[0] == "not":
+            ops.append("not")
+        elif op[0] == "setmb":
+            ops.append("setmb " + _tbl_tok(op[1]))
+        elif op[0] == "qd":
+            ops.append("qd %d %d" % (op[1], op[2]))
+    return "hist %d %s" % (desc["q0"], W.lst(lambda x: x, ops))
+
+
+def state_text(part):
+    """what the six maps read of the REAL part, in the text Driver/C10.lean prints for `describe`"""
+    import partitura.score as S
+
+    fp, lp = part.first_point, part.last_point
+    tup = lambda *xs: "(" + ",".join(str(x) for x in xs) + ")"
+    o = lambda v: "-" if v is None else "%d" % v
+    staffs = {}
+    for cls, sub in ((S.GenericNote, True), (S.Direction, True), (S.Words, False)):
+        for e in part.iter_all(cls, include_subclasses=sub):
+            if e.staff is not None:
+                staffs[id(e)] = int(e.staff)
+    return " ".join([
+        "%d" % len(part._points),
+        "-" if fp is None else tup(fp.t, lp.t),
+        "[" + ",".join(tup(int(t), int(q)) for t, q in zip(part._quarter_times, part._quarter_durations)) + "]",
+        "[" + ",".join(tup(x.start.t, x.beats, x.beat_type, x.musical_beats) for x in part.iter_all(S.TimeSignature)) + "]",
+        "1" if part._use_musical_beat else "0",
+        "[" + ",".join(tup(x.start.t, x.end.t, o(x.number)) for x in part.iter_all(S.Measure)) + "]",
+        "[" + ",".join(tup(x.start.t, x.fifths, "minor" if mode_code(x.mode) == -1 else "major") for x in part.iter_all(S.KeySignature)) + "]",
+        "[" + ",".join(tup(x.start.t, x.staff, x.sign, o(x.line), o(x.octave_change)) for x in part.iter_all(S.Clef)) + "]",
+        "[" + ",".join("%d" % v for v in sorted(staffs.values())) + "]"])
 
 
 # ------------------------------------------------------------------ evaluation
@@ -898,6 +1083,13 @@ def evaluate(desc):
             orc.append("iter-order: iter_all(%s) is not in time order: %s" % (kind, [r[0] for r in got]))
         if sorted(map(repr, got)) != sorted(map(repr, want)):
             orc.append("elements: iter_all(%s) yields %s, on the timeline are (with their stored attributes) %s" % (kind, got[:6], want[:6]))
+
+    # ---- the state the history leaves: the Lean model of add / remove / re-add / beat-mode switches / quarter
+    #      durations (Model/StepMapHist.lean) against everything the maps read of the real part
+    if valid_desc(desc) and not any(c[1] is None for c in desc["clefs"]):
+        r, e = call(state_text, part)
+        ev.requests.append(history_ops(desc))
+        ev.impl.append("err" if e else r)
 
     # ---- the quantities of the pickup rule (observed, no longer an input of the model)
     stable = True  # binary64 and exact evaluation of the pickup rule agree (else the measure maps are not compared)
@@ -1110,9 +1302,10 @@ def evaluate(desc):
         return None if starts is None else ["(%d,%d)" % (t - a, ms[k][1] - a) for a in starts]
 
     # ---- note-array columns against the maps at the onsets
-    if L["notes"] and valid and not staffless:
-        onsets = {n[4]: n[0] for n in L["notes"]}
-        staff_of = {n[4]: n[2] for n in L["notes"]}
+    pitched = [n for n in L["notes"] if (L.get("pit") or {}).get(n[4]) != "rest"]
+    if pitched and valid and not staffless:
+        onsets = {n[4]: n[0] for n in pitched}
+        staff_of = {n[4]: n[2] for n in pitched}
         ms = L["ms"]
         inside_all = (not ms) or all(any(m[0] <= t < m[1] for m in ms) for t in onsets.values())
         inc_mp = inside_all and mp_e is None and measures_ok(L)
@@ -1156,6 +1349,160 @@ def evaluate(desc):
                             orc.append("note-array: note %s at %d has metrical columns %s, the map says %s" % (i, t, c, canon_mp(mpm(t))))
                         if int(rows[i]["is_downbeat"]) != (1 if int(rows[i]["rel_onset_div"]) == 0 else 0):
                             orc.append("note-array: note %s is_downbeat %d with rel_onset_div %d" % (i, int(rows[i]["is_downbeat"]), int(rows[i]["rel_onset_div"])))
+
+    # ---- the note / rest arrays built from a LIST of notes: the public note_array_from_note_list /
+    #      rest_array_from_rest_list called with the part's maps and the notes in an arbitrary order (by pitch,
+    #      reversed, shuffled, a hand-picked sub-list), and note_array_from_part / rest_array_from_part with the same
+    #      include_* flags.  Every row's key-signature, time-signature and metrical columns are the maps - and what is
+    #      in force - at THAT row's onset, whatever the order of the list.
+    if L["notes"] and valid and not staffless and times:
+        import random
+        import partitura.score as S
+        from partitura.utils.music import (note_array_from_note_list, rest_array_from_rest_list,
+                                           rest_array_from_part)
+
+        spec = desc.get("na") or {"order": "score", "seed": 0, "flags": [1, 1, 1], "beat": False}
+        pit = L.get("pit") or {}
+        orig = {}
+        for i, n in enumerate(desc["notes"]):
+            orig[n[4] if len(n) > 4 else "n%d" % i] = i
+        idx_of = {n[4]: k for k, n in enumerate(L["notes"])}
+        onset_of = {n[4]: n[0] for n in L["notes"]}
+        midi = {nid: midi_of(pit.get(nid), orig.get(nid, 0)) for nid in idx_of}
+        objs = {o.id: o for o in part.iter_all(S.GenericNote, include_subclasses=True)}
+        ts_el2 = [(e[0], (e[1], e[2], e[3])) for e in L["ts"]]
+        ks_el2 = [(e[0], (e[1], mode_code(e[2]))) for e in L["ks"]]
+        f_ks, f_ts, f_mp = [bool(v) for v in spec.get("flags", [1, 1, 1])]
+        if mp_e is not None or not stable:
+            f_mp = False
+        flags_tok = " ".join(W.b(v) for v in (f_ks, f_ts, f_mp))
+        maps = {}
+        if f_ks:
+            maps["key_signature_map"] = part.key_signature_map
+        if f_ts:
+            maps["time_signature_map"] = part.time_signature_map
+        if f_mp:
+            maps["metrical_position_map"] = part.metrical_position_map
+        rng2 = random.Random(spec.get("seed", 0))
+
+        def ordered(ids):
+            ids = list(ids)
+            o = spec.get("order", "score")
+            if o == "pitch":
+                ids.sort(key=lambda i: (midi[i], onset_of[i]))
+            elif o == "rev":
+                ids.reverse()
+            elif o in ("shuffle", "pick"):
+                rng2.shuffle(ids)
+                if o == "pick" and len(ids) > 1:
+                    ids = ids[:rng2.randint(1, len(ids))]
+            return ids
+
+        def one_array(label, kind, ids, fn, by_order, entry):
+            """compare one array with the model and judge its rows; `ids` in the order the list is handed in"""
+            na, e = call(fn)
+            req = "na %s %s %s %s %s" % (kind, ptok, kss_tok, flags_tok, W.lst(
+                lambda i: "%d %d %d" % (idx_of[i], onset_of[i], 99 if kind == "rest" else midi[i]), ids))
+            if e:
+                orc.append("note-list-raises: %s raised %s: %s" % (label, type(e).__name__, str(e)[:120]))
+                ev.requests.append(req)
+                ev.impl.append("err")
+                return
+            # the columns the maps add, by name and in dtype order (the model answers from the regenerated layout table)
+            names = list(na.dtype.names or ())
+            want_cols = (["ks_fifths", "ks_mode"] if f_ks else []) + (["ts_beats", "ts_beat_type", "ts_mus_beats"] if f_ts else []) \
+                + (["is_downbeat", "rel_onset_div", "tot_measure_div"] if f_mp else [])
+            ev.requests.append("cols %s %s" % (entry, flags_tok))
+            ev.impl.append("[" + ",".join(n for n in names if n in NA_MAP_COLUMNS) + "]")
+            if "id" not in names or "onset_div" not in names or "pitch" not in names or any(c not in names for c in want_cols):
+                orc.append("note-list-columns: %s has the columns %s; with these maps the documented columns %s are expected" % (
+                    label, names, want_cols))
+                return
+            got_ids = [str(r["id"]) for r in na]
+            if sorted(got_ids) != sorted(ids):
+                orc.append("note-list-rows: %s has the rows %s for the list %s" % (label, got_ids[:8], ids[:8]))
+                return
+            rows = []
+            pos = {idx_of[i]: k for k, i in enumerate(ids)}  # a stable sort keeps the order of the list handed in
+            for r in na:
+                nid = str(r["id"])
+                t = onset_of[nid]
+                cells = [idx_of[nid], int(r["onset_div"]), int(r["pitch"])]
+                if int(r["onset_div"]) != t:
+                    orc.append("note-list-onset: %s: row of %s has onset_div %d, the note starts at %d" % (label, nid, int(r["onset_div"]), t))
+                    continue
+                if f_ks:
+                    c = (int(r["ks_fifths"]), int(r["ks_mode"]))
+                    cells += list(c)
+                    want = in_force(ks_el2, t) or [(0, 1)]
+                    if c not in want:
+                        orc.append("note-list-ks: %s: row of %s (onset %d) has (ks_fifths, ks_mode) = %s, in force at %d: %s" % (label, nid, t, c, t, want))
+                    m = tuple(int(v) for v in maps["key_signature_map"](t))
+                    if m != c:
+                        orc.append("note-list-map: %s: row of %s has key-signature columns %s, key_signature_map(%d) = %s" % (label, nid, c, t, m))
+                if f_ts:
+                    c = (int(r["ts_beats"]), int(r["ts_beat_type"]), int(r["ts_mus_beats"]))
+                    cells += list(c)
+                    want = in_force(ts_el2, t) or [(4, 4, 4)]
+                    if c not in want:
+                        orc.append("note-list-ts: %s: row of %s (onset %d) has (ts_beats, ts_beat_type, ts_mus_beats) = %s, in force at %d: %s" % (label, nid, t, c, t, want))
+                    m = tuple(int(v) for v in maps["time_signature_map"](t))
+                    if m != c:
+                        orc.append("note-list-map: %s: row of %s has time-signature columns %s, time_signature_map(%d) = %s" % (label, nid, c, t, m))
+                if f_mp:
+                    db, rel, tot = int(r["is_downbeat"]), int(r["rel_onset_div"]), int(r["tot_measure_div"])
+                    mrel, mtot = [int(v) for v in maps["metrical_position_map"](t)]
+                    # a NaN measure length is INT64_MIN after .astype(int); the i4 column keeps its low 32 bits (0)
+                    nan_len = mtot == INT_MIN and tot == 0
+                    cells += [db, rel, "nan" if nan_len else tot]
+                    if db != (1 if rel == 0 else 0):
+                        orc.append("note-list-metrical: %s: row of %s has is_downbeat %d with rel_onset_div %d" % (label, nid, db, rel))
+                    if not nan_len and (mrel, mtot) != (rel, tot):
+                        orc.append("note-list-map: %s: row of %s has metrical columns %s, metrical_position_map(%d) = %s" % (label, nid, (rel, tot), t, (mrel, mtot)))
+                    elif mrel != rel:
+                        orc.append("note-list-map: %s: row of %s has rel_onset_div %d, metrical_position_map(%d) = %s" % (label, nid, rel, t, (mrel, mtot)))
+                    want = expected_metrical(t)
+                    if want is not None and "(%d,%s)" % (rel, tot) not in want:
+                        orc.append("note-list-metrical: %s: row of %s (onset %d) has (rel_onset_div, tot_measure_div) = (%d,%d), its measure gives %s" % (label, nid, t, rel, tot, want))
+                rows.append(cells)
+            if len(rows) != len(na):
+                return
+            if by_order:
+                # the order inside a run of rows with equal onset and pitch is numpy's business
+                out, k = [], 0
+                while k < len(rows):
+                    j = k
+                    while j < len(rows) and rows[j][1:3] == rows[k][1:3]:
+                        j += 1
+                    out += sorted(rows[k:j], key=lambda c: pos[c[0]])
+                    k = j
+                rows = out
+            else:
+                rows.sort(key=lambda c: (c[1], c[2], pos[c[0]]))
+            ev.requests.append(req)
+            ev.impl.append("[" + ",".join("(" + ",".join(str(v) for v in c) + ")" for c in rows) + "]")
+
+        note_ids = [n[4] for n in L["notes"] if pit.get(n[4]) != "rest"]
+        rest_ids = [n[4] for n in L["notes"] if pit.get(n[4]) == "rest"]
+        tmaps = dict(maps)
+        if spec.get("beat"):
+            tmaps.update(beat_map=part.beat_map, quarter_map=part.quarter_map)
+        inv = 0
+        for kind, ids, fn_list in (("note", note_ids, note_array_from_note_list), ("rest", rest_ids, rest_array_from_rest_list)):
+            if not ids:
+                continue
+            lst = ordered(ids)
+            inv += sum(1 for a, b in zip(lst, lst[1:]) if onset_of[a] > onset_of[b])
+            one_array("%s_array_from_%s_list(%s order)" % (kind, kind, spec.get("order", "score")), kind, lst,
+                      lambda: fn_list([objs[i] for i in lst], **tmaps), not spec.get("beat"), kind + "_list")
+        # the entry points on the part hand in part.notes_tied / part.rests and the maps the flags select
+        inc = dict(include_key_signature=f_ks, include_time_signature=f_ts, include_metrical_position=f_mp)
+        if note_ids:
+            one_array("note_array_from_part", "note", [o.id for o in part.notes_tied], lambda: note_array_from_part(part, **inc), False, "note_part")
+        if rest_ids:
+            one_array("rest_array_from_part", "rest", [o.id for o in part.rests], lambda: rest_array_from_part(part, **inc), False, "rest_part")
+        ev.info.update({"na_order": spec.get("order", "score"), "na_inversions": inv, "na_rows": len(note_ids) + len(rest_ids),
+                        "na_rests": len(rest_ids), "na_flags": "%d%d%d" % (f_ks, f_ts, f_mp), "na_beat": bool(spec.get("beat"))})
 
     nontrivial = any(desc[k] for k in ("ts", "ks", "clefs", "ms", "notes"))
     ev.key = json.dumps(desc, sort_keys=True, default=str) if nontrivial else None
@@ -1235,6 +1582,16 @@ def distribution(descs, results):
         for k in ("pickup_judged", "pickup_corrected", "edited", "custom_mb", "musical"):
             if inf.get(k):
                 c[k] += 1
+        if inf.get("na_rows"):
+            c["note_list:order=" + str(inf.get("na_order"))] += 1
+            c["note_list:flags(ks,ts,mp)=" + str(inf.get("na_flags"))] += 1
+            c["note_list:rows"] += inf["na_rows"]
+            if inf.get("na_inversions"):
+                c["note_list:handed_in_out_of_onset_order"] += 1
+            if inf.get("na_rests"):
+                c["note_list:with_rests"] += 1
+            if inf.get("na_beat"):
+                c["note_list:with_beat_and_quarter_maps"] += 1
         if inf.get("removed"):
             c["with_removed_elements"] += 1
         if inf.get("stable") is False:
